@@ -1,11 +1,8 @@
 (** C10 obligation: None passes through as None exactly when the element is optional, and is rejected exactly when it is required, in both directions *)
-From OfxV Require Import Base.Prelude Base.Digits Gen.ScalarsGen Model.PyDecimal Model.Scalars Model.ScalarsLex Proofs.ScalarsText Proofs.PyDecimalProofs Proofs.ScalarsProofs Proofs.ScalarsLexProofs.
+From OfxV Require Import Base.Prelude Base.Digits Gen.ScalarsGen Model.PyDecimal Model.Scalars Model.ScalarsLex Proofs.ScalarsText Proofs.PyDecimalProofs Proofs.ScalarsProofs Proofs.ScalarsLexProofs Proofs.ScalarsThms.
 Local Open Scope N_scope.
 Theorem T_none_passthrough : forall e,
   (elem_required e = false <-> convert e PNone = OK (PNone, false)) /\ (elem_required e = false <-> unconvert e PNone = OK (None, false)) /\
   (elem_required e = true <-> convert e PNone = Err Reject) /\ (elem_required e = true <-> unconvert e PNone = Err Reject).
-Proof.
-  intro e. rewrite convert_elem, unconvert_elem. destruct (none_passthrough_sty (elem_sty e) (elem_required e)) as [H0 H1].
-  destruct (elem_required e); [destruct (H1 eq_refl) as [-> ->]|destruct (H0 eq_refl) as [-> ->]]; repeat split; intros; try reflexivity; try discriminate.
-Qed.
+Proof. exact T_none_passthrough_l. Qed.
 Print Assumptions T_none_passthrough.
